@@ -90,7 +90,7 @@ def ForeignCell {B : Type} (A : Aead B) (n : Node) (c : Cell B) : Prop :=
     match get n.exits c.cid, get n.circuits c.cid with
     | none, none => True
     | some e, _ => A.dec e.hop.key .fwd c.body = none
-    | none, some circ => decryptAll A .bwd (circ.hops.map Hop.key) c.body = none
+    | none, some circ => circ.hops = [] ∨ decryptAll A .bwd (circ.hops.map Hop.key) c.body = none
 
 /-- who may destroy the entry named `cid` at node `n` -/
 def Adjacent (n : Node) (signer cid : Nat) : Prop :=
